@@ -1,7 +1,7 @@
 (* C07 - Real-toolchain builds are incremental and survive header changes.
    Only statements; proofs live in theories/. *)
 From Coq Require Import String List.
-From BFG Require Import Base.Chars Misc.Depfix Misc.DepfixProofs.
+From BFG Require Import Base.Chars Misc.Depfix Misc.DepfixProofs Make.MakeSem Make.MakeSemProofs.
 Local Open Scope N_scope.
 
 (* For every depfile text a gcc-style writer produces (target, dependencies with gcc's escaping of blank, hash and
@@ -39,6 +39,50 @@ Theorem C07_depfix_total : forall s e, snd (emit_deps s) = Some e ->
   e = EEof \/ e = EUnexpected TNewline \/ e = EUnexpected TColon.
 Proof. intros s e. exact (emit_err_kinds DTarget (tokenize s) e). Qed.
 Print Assumptions C07_depfix_total.
+
+(* ---- generic theorems about the mtime semantics of Make (Make/MakeSem.v) ---- *)
+
+(* a build right after a successful build executes nothing and changes nothing: for every rule list in topological
+   order with one producer per file, without phony rules, whose recipe-less rules are existing leaves *)
+Theorem C07_build_idempotent : forall rs f clk,
+  wfb rs = true -> nophony rs -> leaves_exist rs f -> fs_below f clk ->
+  let s1 := build rs f clk in
+  b_fail s1 = None ->
+  build rs (b_fs s1) (b_clk s1) = init (b_fs s1) (b_clk s1) /\ b_log (build rs (b_fs s1) (b_clk s1)) = [].
+Proof. exact build_idempotent. Qed.
+Print Assumptions C07_build_idempotent.
+
+(* from an up-to-date state, touching x (or creating it) makes exactly the recipes downstream of x run, in rule order,
+   and the build does not fail *)
+Theorem C07_touch_rebuilds_downstream : forall rs f1 clk x,
+  wfb rs = true -> nophony rs -> leaves_flat rs -> fs_below f1 clk ->
+  (forall r, In r rs -> quiescent_rule f1 r) ->
+  let s := build rs (upd f1 x clk) (clk + 1) in
+  b_fail s = None /\ b_log s = down x rs.
+Proof. exact touch_rebuilds_downstream. Qed.
+Print Assumptions C07_touch_rebuilds_downstream.
+
+(* Make never stops with  No rule to make target  when every prerequisite exists or is the target of some rule *)
+Theorem C07_build_no_fail : forall rs f clk,
+  (forall r p, In r rs -> In p (r_prereqs r ++ r_order r) -> f p <> None \/ has_rule rs p = true) ->
+  b_fail (build rs f clk) = None.
+Proof. exact build_no_fail. Qed.
+Print Assumptions C07_build_no_fail.
+
+(* non-vacuity: header 1 and source 2 (empty rules), objects 10 <- 2 1 and 11 <- 3; program 20 <- 10 11.
+   First build runs 10 11 20; the next one nothing; touching header 1 rebuilds 10 and 20 only; deleting header 1
+   (still listed) rebuilds 10 and 20 instead of failing; without the empty rule for 1 the build fails on 1. *)
+Example C07_makesem_ex :
+  let rs := [mkRule 1 [] [] false false; mkRule 2 [] [] false false;
+             mkRule 10 [2; 1] [] true false; mkRule 11 [3] [] true false; mkRule 20 [10; 11] [] true false] in
+  let f0 := fs_of [(1, 5); (2, 6); (3, 7)] in
+  let s1 := build rs f0 100 in
+  wfb rs = true /\ b_log s1 = [10; 11; 20] /\ b_fail s1 = None /\
+  b_log (build rs (b_fs s1) (b_clk s1)) = [] /\
+  b_log (build rs (upd (b_fs s1) 1 (b_clk s1)) (b_clk s1 + 1)) = [10; 20] /\ down 1 rs = [10; 20] /\
+  b_log (build rs (del (b_fs s1) 1) (b_clk s1)) = [10; 20] /\ b_fail (build rs (del (b_fs s1) 1) (b_clk s1)) = None /\
+  b_fail (build (tl rs) (del (b_fs s1) 1) (b_clk s1)) = Some 1.
+Proof. vm_compute. repeat split. Qed.
 
 (* names outside the guard really go wrong: the depfixer copies percent and equals unescaped, and Make does not
    read the resulting line as an explicit rule for that name (see findings C07-depfix-percent / -equals) *)
